@@ -81,6 +81,9 @@ class VSock:
         return s, ("10.0.0.2", 40000)
 
     def recv(self, n, flags=0):
+        if not self.inq:
+            # a non-blocking socket with nothing pending
+            raise real_socket.error(errno.EAGAIN, "Resource temporarily unavailable")
         x = self.inq.pop(0)
         if isinstance(x, BaseException):
             raise x
